@@ -19,7 +19,7 @@ func init() {
 			"iff N <= 2, or N <= 4 in the large format, with the same printer and exactly N bytes after the type byte, and otherwise follows the offset read with the size class; (R3) size-class propagation - " +
 			"inside object/array printing every offset/size read and every entry receives the function's own size class, except exactly one constant-small read (the key length), and the entry stride is 3 / 5 " +
 			"bytes (small / large); (R4) the offset/size reader composes 2 / 4 little-endian bytes and advances by exactly that; (R5) the scalar printers render the documented integer widths / signedness, the " +
-			"double via AppendFloat('E', -1, 64) and the three literals; the variable-length prefix uses 7-bit groups with a continuation bit. " +
+			"double via AppendFloat('E', -1, 64), the three literals, and the opaque DATE / TIME / DATETIME printers extract their fields from MySQL's packed temporal format (10-bit hour for TIME); the variable-length prefix uses 7-bit groups with a continuation bit. " +
 			"Not decided: nesting, key/value order and offsets of arbitrary documents, string escaping, opaque scalar arithmetic (e.g. negative opaque TIME).",
 		Rule:        "instances = type bytes x size classes under SCCP, call arguments of the container printers, canonical terms of scalar printers",
 		Trusted:     append([]string{"MySQL json_binary.cc layout (type codes, inlining rule, entry sizes) encoded in rules_c14.go", "H-sccp / H-term"}, commonTrusted...),
@@ -53,6 +53,9 @@ func init() {
 		Variant{ID: "c14-r5-int32-unsigned", Prop: "C14", File: "replication/binlog_event_json.go",
 			Old: "\tresult.Write(strconv.AppendInt(nil, int64(int32(val)), 10))", New: "\tresult.Write(strconv.AppendInt(nil, int64(val), 10))",
 			Expect: "C14-R5 scalar@printJSONInt32"},
+		Variant{ID: "c14-r5-opaque-time-hour-mask", Prop: "C14", File: "replication/binlog_event_json.go",
+			Old: "\thour := (value >> 12) & 0x03ff // 10 bits starting at 12th", New: "\thour := (value >> 12) & 0x1f // 10 bits starting at 12th",
+			Expect: "C14-R5 opaque@printJSONTime"},
 		Variant{ID: "c14-r5-varlen-group", Prop: "C14", File: "replication/binlog_event_json.go",
 			Old: "\t\tres |= int(bb&0x7f) << (7 * idx)", New: "\t\tres |= int(bb&0x7f) << (8 * idx)",
 			Expect: "C14-R5 varlen@readVariableLength"},
@@ -415,6 +418,38 @@ func c14R5(a *A) {
 			}
 			a.check(got == w1, rule, fmt.Sprintf("scalar@%s[toplevel=%v]", n, tl), w.pos(f.Pos()), w1, fmt.Sprintf("%s writes [%s]; the documented rendering is [%s]", n, got, w1))
 		}
+	}
+	// opaque temporal scalars: MySQL's packed formats (TIME_to_longlong_*_packed): value = raw>>24, microseconds = low 24 bits
+	v := "(>> LE(8,data[0]) 24)"
+	ym := "(& (>> " + v + " 22) 131071)"
+	us := "(& 16777215 LE(8,data[0]))"
+	wantT := map[string]string{
+		"printJSONDate":     `printf("CAST('%04d-%02d-%02d' AS DATE)",(/ ` + ym + ` 13),(% ` + ym + ` 13),(& (>> ` + v + ` 17) 31))`,
+		"printJSONTime":     `str("CAST('"); byte(45); printf("%02d:%02d:%02d",(& (>> ` + v + ` 12) 1023),(& (>> ` + v + ` 6) 63),(& ` + v + ` 63)); printf(".%06d",` + us + `); str("' AS TIME(6))")`,
+		"printJSONDateTime": `printf("CAST('%04d-%02d-%02d %02d:%02d:%02d",(/ ` + ym + ` 13),(% ` + ym + ` 13),(& (>> ` + v + ` 17) 31),(& (>> ` + v + ` 12) 31),(& (>> ` + v + ` 6) 63),(& ` + v + ` 63)); printf(".%06d",` + us + `); str("' AS DATETIME(6))")`,
+	}
+	for _, n := range []string{"printJSONDate", "printJSONTime", "printJSONDateTime"} {
+		f := w.fn(w.Repl, n)
+		if !a.need(f != nil, rule, n) {
+			continue
+		}
+		a.touch(f)
+		var top, buf ssa.Value
+		for _, p := range f.Params {
+			if types.Identical(p.Type(), types.Typ[types.Bool]) {
+				top = p
+			}
+			if typeIs(p.Type(), "bytes", "Buffer") {
+				buf = p
+			}
+		}
+		res := Specialize(f, map[ssa.Value]constant.Value{top: constant.MakeBool(false)}, nil)
+		a.Evals++
+		t := newTB(res)
+		t.names[f.Params[0]] = "data"
+		got := strings.TrimPrefix(bufferWrites(t, res, buf, 0), ": ")
+		a.check(got == wantT[n], rule, "opaque@"+n, w.pos(f.Pos()), "fields extracted per MySQL's packed temporal format",
+			fmt.Sprintf("%s renders [%s]; MySQL packs (year*13+month)<<22 | day<<17 | hour<<12 | minute<<6 | second above 24 bits of microseconds (TIME: 10-bit hour), i.e. [%s]", n, got, wantT[n]))
 	}
 	// literals
 	pl := w.fn(w.Repl, "printJSONLiteral")
